@@ -506,9 +506,17 @@ class Folder:
             if isinstance(e.op, ast.Div):
                 if isinstance(l, Abstract) or isinstance(r, Abstract):
                     return l / r  # e.g. path / name
-                if isinstance(l, float) or isinstance(r, float):
+                # Python's true division: int / int is a *float* (exact only up to 2**53), Fraction / anything is exact
+                try:
                     return l / r
-                return Fraction(l) / Fraction(r)
+                except ZeroDivisionError:
+                    from .absint import Raised
+
+                    raise Raised("ZeroDivisionError", e)
+                except OverflowError:
+                    from .absint import Raised
+
+                    raise Raised("OverflowError", e)
             if isinstance(e.op, ast.Mod) and isinstance(l, str) and not isinstance(l, Abstract):
                 wrap = lambda x: _Texted(self, x) if type(x).__name__ == "AObj" and x._record() is None else x  # noqa: E731
                 r = tuple(wrap(x) for x in r) if isinstance(r, tuple) else wrap(r)
